@@ -128,9 +128,18 @@ def run_impl_world(ops, check_isolation=True):
                 target = o[1]
                 md = insts[o[1]]
                 env = {"omit": None, "fresh": {}, "shared": shared_env}[o[4]]
-                f = getattr(md, o[2])
                 if supported(md):
-                    guarded(f, o[3]) if env is None else guarded(f, o[3], env)
+                    env_copy = copy.deepcopy(env)
+                    got = call(md, o[2], o[3], env)
+                    if check_isolation:
+                        # this very call must come out as on a fresh instance with the same configuration
+                        fresh = replay_fresh(ops[:k], o[1])
+                        if fresh is not None:
+                            want = call(fresh, o[2], o[3], env_copy)
+                            if got != want:
+                                problems.append({"kind": "a call in the history differs from the same call on a fresh instance with the same configuration",
+                                                 "op_index": k, "instance": o[1], "api": o[2], "src": o[3],
+                                                 "in_history": str(got)[:600], "fresh": str(want)[:600]})
                 res = [0, [0]]
         except Hang:
             res = [0, [0]]  # totality is C01's business, not C12's
@@ -162,6 +171,8 @@ def canon_model(v):
 # ---------------------------------------------------------------- direct property
 
 PROBE_DOCS = [
+    "    # indented heading\n\n    - item\n\npara\n    lazy or code\n",
+    "| a | b | c |\n|:--|:-:|--:|\n| 1 | 2 | 3 |\n",
     "# T\n\n*a* **b** `c` [l](http://x.y \"t\") ![i](s) <b>h</b>\n\n- i1\n- i2\n\n> q\n\n    code\n\n```py\nf\n```\n\n| a | b |\n|---|---|\n| 1 | 2 |\n\n\"q\" -- (c) ~~s~~\n",
     "[ref] and [other][ref]\n\n[ref]: /u 'T'\n",
     "[ref] undefined here\n",
@@ -250,6 +261,85 @@ def probe_all_presets(presets):
     return out
 
 
+MUTATORS = [
+    lambda t: t.attrJoin("class", "cell"), lambda t: t.attrSet("data-x", "1"), lambda t: t.meta.__setitem__("seen", True),
+    lambda t: t.attrs.__setitem__("style", "color:red"),
+]
+
+
+def user_mutations_stay_local():
+    """tokens are per-parse objects: a render rule (user code) that mutates the token it is handed must not
+    change what any later parse - on this or any other instance - produces"""
+    from markdown_it import MarkdownIt
+
+    docs_ = PROBE_DOCS
+    for preset, upd in (("commonmark", None), ("js-default", {"linkify": False}), ("commonmark", {"html": True})):
+        def mk():
+            md = MarkdownIt(preset, upd)
+            if preset == "commonmark":
+                md.enable(["table", "strikethrough"])
+            return md
+        base = [call(mk(), "render", d) for d in docs_]
+        types = set()
+        for d in docs_:
+            for t in mk().parse(d):
+                types.add(t.type)
+                for c in t.children or []:
+                    types.add(c.type)
+        for ty in sorted(types):
+            for mi, mut in enumerate(MUTATORS):
+                styled = mk()
+
+                def rule(self, tokens, idx, options, env, mut=mut):
+                    mut(tokens[idx])
+                    return self.renderToken(tokens, idx, options, env)
+                styled.add_render_rule(ty, rule)
+                firsts = [call(styled, "render", d) for d in docs_]
+                seconds = [call(styled, "render", d) for d in docs_]
+                if firsts != seconds:
+                    k = next(i for i, (a, b) in enumerate(zip(firsts, seconds)) if a != b)
+                    return {"kind": "the same render on the same instance differs the second time (a user render rule mutated the token it was handed)",
+                            "token_type": ty, "mutator": mi, "src": docs_[k], "first": str(firsts[k])[:500], "second": str(seconds[k])[:500]}
+                after = [call(mk(), "render", d) for d in docs_]
+                if after != base:
+                    k = next(i for i, (a, b) in enumerate(zip(after, base)) if a != b)
+                    return {"kind": "a fresh instance renders differently after another instance's render rule mutated its own tokens",
+                            "token_type": ty, "mutator": mi, "src": docs_[k], "before": str(base[k])[:500], "after": str(after[k])[:500]}
+    return None
+
+
+def toggle_each_rule():
+    """for every rule of every chain: an instance that has already parsed, then has the rule toggled, must parse
+    like a fresh instance configured the same way - on its very first call after the change"""
+    from markdown_it import MarkdownIt
+
+    for preset in ("commonmark", "js-default"):
+        m0 = MarkdownIt(preset, {"linkify": False})
+        names = sorted({r for rs in m0.get_all_rules().values() for r in rs} - {"linkify"})
+        for name in names:
+            for start_on in (True, False):
+                used = MarkdownIt(preset, {"linkify": False})
+                fresh = MarkdownIt(preset, {"linkify": False})
+                try:
+                    if not start_on:
+                        used.disable(name)
+                    for d in PROBE_DOCS[:3]:
+                        call(used, "render", d)
+                    (used.disable if start_on else used.enable)(name)
+                    (fresh.disable if start_on else fresh.enable)(name)
+                except Exception:  # noqa: BLE001
+                    continue
+                if not supported(used):
+                    continue
+                for d in PROBE_DOCS:
+                    a, b = call(used, "render", d), call(fresh, "render", d)
+                    if a != b:
+                        return {"kind": "first call after toggling a rule differs from a fresh instance with the same configuration",
+                                "preset": preset, "rule": name, "toggled": "disabled" if start_on else "enabled", "src": d,
+                                "used_instance": str(a)[:500], "fresh_instance": str(b)[:500]}
+    return None
+
+
 def refs_do_not_travel():
     from markdown_it import MarkdownIt
 
@@ -300,7 +390,7 @@ def run(ctx) -> int:
             direct_fail = (h, d)
             break
     if direct_fail is None:
-        d = refs_do_not_travel()
+        d = refs_do_not_travel() or user_mutations_stay_local() or toggle_each_rule()
         if d is not None:
             direct_fail = ([], d)
     if direct_fail is None:
